@@ -1,1 +1,3 @@
 pub mod c07;
+pub mod c09;
+pub mod c01;
